@@ -30,15 +30,17 @@ def clefOf (d : Doc) (n : Node) : Option Str :=
   | some c => ((Doc.nodeAt d.stages c).bind (·.tok)).map (·.enc)
   | none => none
 
-/-- `export_token(node, options)` -/
-def exportToken (d : Doc) (o : Opts) (n : Node) : Except Err Str :=
+/-- `export_token(node, options)`: depends on the options only through the encoding and the categories -/
+def exportTokenCE (d : Doc) (cats : List Cat) (enc : Encoding) (n : Node) : Except Err Str :=
   match n.tok with
   | none => .error .other
   | some t =>
     let t' := match t with
-      | .header e i => Tokz.headerFor o.enc e i
+      | .header e i => Tokz.headerFor enc e i
       | t => t
-    Tokz.tokenize o.enc o.cats (clefOf d n) t'
+    Tokz.tokenize enc cats (clefOf d n) t'
+
+def exportToken (d : Doc) (o : Opts) (n : Node) : Except Err Str := exportTokenCE d o.cats o.enc n
 
 /-- `_retrieve_empty_token(node)` -/
 def placeholder (n : Node) : Str :=
@@ -51,21 +53,28 @@ def headerTok (d : Doc) (n : Node) : Option Tok :=
   | some (.header e i) => some (.header e i)
   | _ => (n.hdr.bind (Doc.nodeAt d.stages)).bind (·.tok)
 
-def spineSelected (d : Doc) (o : Opts) (n : Node) : Bool :=
+/-- the spine test of `append_row`: header type selected and (no id selection or id selected) -/
+def spineSelectedBy (types : List Str) (ids : Option (List Nat)) (d : Doc) (n : Node) : Bool :=
   match headerTok d n with
-  | some (.header e i) => o.spineTypes.contains e && (match o.spineIds with | none => true | some ids => ids.contains i)
+  | some (.header e i) => types.contains e && (match ids with | none => true | some l => l.contains i)
   | _ => false
+
+def spineSelected (d : Doc) (o : Opts) (n : Node) : Bool := spineSelectedBy o.spineTypes o.spineIds d n
+
+/-- what a node of a selected spine contributes: its exported text, or a placeholder when it is hidden, not
+    selected by category, or exports to the empty string; nothing for the root -/
+def cellBody (d : Doc) (cats : List Cat) (enc : Encoding) (n : Node) : Except Err (Option Str) :=
+  match n.tok with
+  | none => .ok none
+  | some t =>
+    if t.hidden || !(t.isComplex || cats.contains t.cat) then .ok (some (placeholder n))
+    else do
+      let s ← exportTokenCE d cats enc n
+      pure (some (if s.isEmpty then placeholder n else s))
 
 /-- `append_row`: the cell this node contributes, or nothing when its spine is filtered out -/
 def appendRow (d : Doc) (o : Opts) (n : Node) : Except Err (Option Str) :=
-  if !spineSelected d o n then .ok none
-  else match n.tok with
-    | none => .ok none
-    | some t =>
-      if t.hidden || !(t.isComplex || o.cats.contains t.cat) then .ok (some (placeholder n))
-      else do
-        let s ← exportToken d o n
-        pure (some (if s.isEmpty then placeholder n else s))
+  if !spineSelected d o n then .ok none else cellBody d o.cats o.enc n
 
 def rowOfStage (d : Doc) (o : Opts) (st : List Node) : Except Err (List Str) := do
   let cells ← st.mapM (appendRow d o)
@@ -165,40 +174,61 @@ def signatureRows (d : Doc) (o : Opts) (fromStage toStage : Nat) : Except Err (L
 def renderRows (rows : List (List Str)) : Str :=
   (rows.filter (fun r => !emptyRow r)).flatMap (fun r => joinSep ['\t'] r ++ ['\n'])
 
-/-- `Exporter.export_string(document, options)` -/
-def exportString (d : Doc) (o : Opts) : Except Err Str := do
+/-- `to_stage`: the start stage of the measure after `to_measure`, else the last stage -/
+def toStageOf (d : Doc) (o : Opts) : Nat :=
+  match o.toM with
+  | some t =>
+    if t < (d.starts.length : Int) then d.starts[t.toNat]?.getD (d.stages.length - 1)
+    else d.stages.length - 1
+  | none => d.stages.length - 1
+
+/-- `if options.from_measure:` — `None` and `0` mean "from the beginning" -/
+def hasFrom (o : Opts) : Bool := match o.fromM with | some f => f != 0 | none => false
+
+/-- the rows of the stages `fromStage .. toStage`, each with its stage number, all-null rows dropped -/
+def bodyRows (d : Doc) (o : Opts) (fromStage toStage : Nat) : Except Err (List (Nat × List Str)) := do
+  let rows ← ((List.range (toStage + 1 - fromStage)).map (· + fromStage)).mapM (fun s => do
+    let r ← rowOfStage d o (d.stages[s]?.getD [])
+    pure (s, r))
+  pure (rows.filter (fun sr => !sr.2.isEmpty && !(sr.2.all isNullish)))
+
+/-- the terminator row added to a range export whose last row does not terminate the spines -/
+def terminatorFor (o : Opts) (rows : List (List Str)) : List (List Str) :=
+  match o.toM, rows.getLast? with
+  | some _, some last =>
+    if last.head? != some ['*', '-'] then
+      [List.replicate (last.length + (last.filter (· == ['*', '^'])).length - (last.filter (· == ['*', 'v'])).length) ['*', '-']]
+    else []
+  | _, _ => []
+
+/-- the three parts of an export: recovered preamble (headers, open operators, signatures in force),
+    body rows with their stage, synthetic terminator -/
+structure Parts where
+  pre : List (List Str)
+  body : List (Nat × List Str)
+  term : List (List Str)
+
+def exportParts (d : Doc) (o : Opts) : Except Err Parts := do
   validate d o
-  let nStages := d.stages.length
-  let nStarts := d.starts.length
-  let toStage : Nat := match o.toM with
-    | some t =>
-      if t < (nStarts : Int) then d.starts[t.toNat]?.getD (nStages - 1)
-      else nStages - 1
-    | none => nStages - 1
-  let hasFrom : Bool := match o.fromM with | some f => f != 0 | none => false
-  let (fromStage, pre) ← (if hasFrom then do
-      let f := (o.fromM.getD 0)
-      -- Python list indexing: a negative index counts from the end, an index past the end raises
-      let idx : Int := f - 1
+  let toStage := toStageOf d o
+  let (fromStage, pre) ← (if hasFrom o then do
+      -- Python list indexing: an index past the end raises
+      let idx : Int := (o.fromM.getD 0) - 1
       let fromStage ← (match d.starts[idx.toNat]? with
         | some s => if idx < 0 then .error .other else pure s
         | none => .error .other : Except Err Nat)
       let coords := (List.range ((d.stages[fromStage]?.getD []).length)).map (fun i => (fromStage, i))
-      let rows ← preambleLoop d o fromStage (nStages + 1) coords []
+      let rows ← preambleLoop d o fromStage (d.stages.length + 1) coords []
       let sigRows ← signatureRows d o fromStage toStage
       pure (fromStage, rows ++ sigRows)
     else pure (0, []) : Except Err (Nat × List (List Str)))
-  let body ← ((List.range (toStage + 1 - fromStage)).map (· + fromStage)).mapM (fun s => rowOfStage d o (d.stages[s]?.getD []))
-  let body := body.filter (fun r => !r.isEmpty && !(r.all isNullish))
-  let rows := pre ++ body
-  let rows := match o.toM, rows.getLast? with
-    | some _, some last =>
-      if last.head? != some ['*', '-'] then
-        let n := last.length + (last.filter (· == ['*', '^'])).length - (last.filter (· == ['*', 'v'])).length
-        rows ++ [List.replicate n ['*', '-']]
-      else rows
-    | _, _ => rows
-  pure (renderRows rows)
+  let body ← bodyRows d o fromStage toStage
+  pure ⟨pre, body, terminatorFor o (pre ++ body.map (·.2))⟩
+
+def Parts.rows (p : Parts) : List (List Str) := p.pre ++ p.body.map (·.2) ++ p.term
+
+/-- `Exporter.export_string(document, options)` -/
+def exportString (d : Doc) (o : Opts) : Except Err Str := (exportParts d o).map (fun p => renderRows p.rows)
 
 /-- `Exporter.get_spine_types(document, spine_types)` -/
 def getSpineTypes (d : Doc) (spineTypes : Option (List Str)) : Except Err (List Str) :=
